@@ -84,7 +84,7 @@ SMA_CAP = 1.0e4         # a run whose sma passes this is cut as well (sampling t
 CALL_CAP = 250          # fit_isophote calls per fit_image run; the model's fuel is 400 per loop
 
 
-def run_fit_image(image, geom_args, kwargs, script=None, minit=10, record_steps=False):
+def run_fit_image(image, geom_args, kwargs, script=None, minit=10, record_steps=False, gfix=None, gmode=None):
     """Run the real Ellipse.fit_image.  `script` = list of (stop_code, valid): the
     EllipseFitter is replaced by an oracle that returns these outcomes in turn
     (everything else — fit_image, fit_isophote, _non_iterative, _fix_last_isophote,
@@ -163,7 +163,14 @@ def run_fit_image(image, geom_args, kwargs, script=None, minit=10, record_steps=
             steps[-1]['gn'] = gtuple(sample.geometry)
         return r
 
-    geometry = EllipseGeometry(*geom_args)
+    # a fix request may also be carried by the geometry: constructor flags or the .fix attribute.  A fresh
+    # geometry / Ellipse is built for every run (fit_image overrides the instance "for good")
+    if gmode == 'ctor':
+        geometry = EllipseGeometry(*geom_args, fix_center=gfix[0], fix_pa=gfix[1], fix_eps=gfix[2])
+    else:
+        geometry = EllipseGeometry(*geom_args)
+        if gmode == 'attr':
+            geometry.fix = np.array([gfix[0], gfix[0], gfix[1], gfix[2]])
     img0 = image.copy()
     ell.EllipseFitter = OracleFitter
     if record_steps:
@@ -274,9 +281,31 @@ def gen_sched(rng):
                                                       (True, True, True)])
     use_sma0 = rng.random() < 0.8
     gsma = sma0 if not use_sma0 or rng.random() < 0.5 else 7.0
+    # request channel: keywords only, or (also) flags carried by the geometry (constructor / .fix attribute)
+    gfix, gmode = None, None
+    if rng.random() < 0.35:
+        gfix = tuple(rng.random() < 0.45 for _ in range(3))
+        gmode = rng.choice(['ctor', 'attr'])
     return dict(lin=lin, step=step, sma0=(sma0 if use_sma0 else rng.choice([None, 0.0])), gsma=gsma,
                 minsma=minsma, maxsma=maxsma, maxrit=maxrit, stream=stream, fixes=fixes,
-                lin_arg=rng.random() < 0.7)
+                lin_arg=rng.random() < 0.7, gfix=gfix, gmode=gmode)
+
+
+NOFIX = (False, False, False)
+
+
+def eff_fixes(p):
+    """The fix flags the call must work with (ellipse.py:400-407, C20_Model.effective_fix): the keywords
+    if any keyword is set (they REPLACE the geometry's flags), else the flags carried by the geometry."""
+    return tuple(p['fixes']) if any(p['fixes']) else tuple(p.get('gfix') or NOFIX)
+
+
+def fix_term(p, obs):
+    """Correspondence case for effective_fix: distinct geometry.fix arrays seen at fitter calls / on isophotes."""
+    seen = sorted({fl_ for _, _, fl_ in obs['fixflags']})
+    g = tuple(p.get('gfix') or NOFIX)
+    return 'CFix ' + ' '.join(coq(v) for v in [p['fixes'][0], p['fixes'][1], p['fixes'][2],
+                                               [g[0], g[0], g[1], g[2]], [list(f) for f in seen]])
 
 
 def run_sched(p):
@@ -285,7 +314,7 @@ def run_sched(p):
     geom_args = (24.0, 24.0, p['gsma'], 0.2, 0.5, 0.1, p['lin'])
     kw = dict(sma0=p['sma0'], minsma=p['minsma'], maxsma=p['maxsma'], step=p['step'], linear=lin_arg,
               maxrit=p['maxrit'], fix_center=p['fixes'][0], fix_pa=p['fixes'][1], fix_eps=p['fixes'][2])
-    return run_fit_image(script_image(), geom_args, kw, script=p['stream'])
+    return run_fit_image(script_image(), geom_args, kw, script=p['stream'], gfix=p.get('gfix'), gmode=p.get('gmode'))
 
 
 def sched_term(p, obs, stream, repaired=True):
@@ -336,7 +365,8 @@ def sched_oracle(p, obs):
 def describe_sched(p):
     return {'mode': 'scripted', 'lin': p['lin'], 'lin_arg': p['lin_arg'], 'step': p['step'], 'sma0': p['sma0'],
             'gsma': p['gsma'], 'minsma': p['minsma'], 'maxsma': p['maxsma'], 'maxrit': p['maxrit'],
-            'stream': [list(x) for x in p['stream']], 'fixes': list(p['fixes'])}
+            'stream': [list(x) for x in p['stream']], 'fixes': list(p['fixes']),
+            'gfix': list(p['gfix']) if p.get('gfix') else None, 'gmode': p.get('gmode')}
 
 
 # --------------------------------------------------------------------------
@@ -385,7 +415,8 @@ def gen_real(rng, thorough=False, force=None):
     # fail on off-frame ellipses, the tail is extracted non-iteratively), or non-iterative beyond maxrit
     maxrit = None
     out = rng.choice(['none', 'in', 'in', 'in', 'off', 'maxrit'])
-    out = {'fix-offframe': 'off', 'fix-maxrit': 'maxrit', 'fix-none': 'none', 'wide': 'in', 'tall': 'in'}.get(force, out)
+    out = {'fix-offframe': 'off', 'fix-maxrit': 'maxrit', 'fix-none': 'none', 'wide': 'in', 'tall': 'in',
+           'chan-ctor': 'in', 'chan-attr': 'off', 'chan-disagree': 'in'}.get(force, out)
     if out == 'none':
         maxsma = None
     elif out == 'in':
@@ -410,7 +441,7 @@ def gen_real(rng, thorough=False, force=None):
     amax = min(0.35, 0.25 * (1.0 - eps) / max(eps, 0.1))
     # a fixed parameter is requested either at the truth (then the other parameters must be recovered) or at
     # a value deliberately DIFFERENT from the truth (then a parameter that is silently freed visibly moves)
-    off = (force is not None and force.startswith('fix')) or rng.random() < 0.5
+    off = (force is not None and force.startswith(('fix', 'chan'))) or rng.random() < 0.5
 
     def away(lo, hi):
         return rng.choice([-1, 1]) * rng.uniform(lo, hi)
@@ -432,21 +463,40 @@ def gen_real(rng, thorough=False, force=None):
     integr = rng.choice(['bilinear', 'bilinear', 'bilinear', 'nearest_neighbor', 'mean', 'median'])
     if force is not None:
         integr = 'bilinear'
+    # REQUEST CHANNEL of the (effective) fix flags `fixes`: fit_image keywords; EllipseGeometry constructor
+    # flags; geometry.fix assigned before the call; both channels agreeing; both disagreeing (the keywords
+    # replace the geometry's flags, so the geometry then carries some OTHER combination)
+    kw, gfix, gmode = fixes, None, None
+    if any(fixes):
+        chan = rng.choice(['kw', 'kw', 'ctor', 'attr', 'agree', 'disagree'])
+        chan = {'chan-ctor': 'ctor', 'chan-attr': 'attr', 'chan-disagree': 'disagree'}.get(force, chan)
+        if chan in ('ctor', 'attr'):
+            kw, gfix, gmode = NOFIX, fixes, chan
+        elif chan == 'agree':
+            gfix, gmode = fixes, rng.choice(['ctor', 'attr'])
+        elif chan == 'disagree':
+            others = [c for c in [(True, False, False), (False, True, False), (False, False, True),
+                                  (True, True, False), (False, True, True), (True, False, True)] if c != fixes]
+            gfix, gmode = rng.choice(others), rng.choice(['ctor', 'attr'])
+    elif rng.random() < 0.3:
+        gfix, gmode = NOFIX, rng.choice(['ctor', 'attr'])
     return dict(ny=ny, nx=nx, x0=x0, y0=y0, eps=eps, pa=pa, law=law, scale=scale, lin=lin, step=step,
-                sma0=sma0, gsma=sma0, minsma=minsma, maxsma=maxsma, maxrit=maxrit, fixes=fixes,
+                sma0=sma0, gsma=sma0, minsma=minsma, maxsma=maxsma, maxrit=maxrit, fixes=kw, gfix=gfix, gmode=gmode,
                 g=(gx, gy, gpa, geps), integr=integr, lin_arg=True)
 
 
 def fixed_at_truth(p):
     gx, gy, gpa, geps = p['g']
-    return ((not p['fixes'][0] or (gx == p['x0'] and gy == p['y0'])) and (not p['fixes'][1] or gpa == p['pa'])
-            and (not p['fixes'][2] or geps == p['eps']))
+    fx = eff_fixes(p)
+    return ((not fx[0] or (gx == p['x0'] and gy == p['y0'])) and (not fx[1] or gpa == p['pa'])
+            and (not fx[2] or geps == p['eps']))
 
 
 def fixflag_oracle(p, obs):
     """Every fitter call and every returned isophote (sma > 0) carries exactly the requested fix flags
-    [fix_center, fix_center, fix_pa, fix_eps] (all False when nothing is requested)."""
-    want = (p['fixes'][0], p['fixes'][0], p['fixes'][1], p['fixes'][2])
+    [fix_center, fix_center, fix_pa, fix_eps] of eff_fixes (all False when nothing is requested)."""
+    fx = eff_fixes(p)
+    want = (fx[0], fx[0], fx[1], fx[2])
     return [f'{where} at sma {sma}: geometry.fix = {list(fl_)} but {list(want)} was requested'
             for where, sma, fl_ in obs['fixflags'] if fl_ != want]
 
@@ -458,13 +508,14 @@ def run_real(p, record_steps=True):
     kw = dict(sma0=p['sma0'], minsma=p['minsma'], maxsma=p['maxsma'], step=p['step'], linear=p['lin'],
               maxrit=p['maxrit'], integrmode=p['integr'],
               fix_center=p['fixes'][0], fix_pa=p['fixes'][1], fix_eps=p['fixes'][2])
-    obs = run_fit_image(img, geom_args, kw, script=None, record_steps=record_steps)
+    obs = run_fit_image(img, geom_args, kw, script=None, record_steps=record_steps, gfix=p.get('gfix'),
+                        gmode=p.get('gmode'))
     obs['image'] = img
     return obs
 
 
 # structured families generated in every run (see gen_real)
-FORCED_REAL = ['wide', 'tall', 'fix-offframe', 'fix-maxrit', 'fix-none']
+FORCED_REAL = ['wide', 'tall', 'fix-offframe', 'fix-maxrit', 'fix-none', 'chan-ctor', 'chan-attr', 'chan-disagree']
 
 # inputs that once exposed a defect; run first in every tier
 PINNED_REAL = [
@@ -594,15 +645,16 @@ def recovery(p, obs):
 def fixed_honoured(p, obs):
     """Fixed parameters keep the requested value exactly on every fitted ellipse (sma > 0)."""
     gx, gy, gpa, geps = p['g']
+    fx = eff_fixes(p)
     bad = []
     for iso in obs['isolist']:
         if iso.sma <= 0:
             continue
-        if p['fixes'][0] and (iso.x0 != gx or iso.y0 != gy):
+        if fx[0] and (iso.x0 != gx or iso.y0 != gy):
             bad.append(('centre', float(iso.sma), float(iso.x0), float(iso.y0)))
-        if p['fixes'][1] and iso.pa != gpa:
+        if fx[1] and iso.pa != gpa:
             bad.append(('pa', float(iso.sma), float(iso.pa)))
-        if p['fixes'][2] and iso.eps != geps:
+        if fx[2] and iso.eps != geps:
             bad.append(('eps', float(iso.sma), float(iso.eps)))
     return bad
 
@@ -631,7 +683,8 @@ def fixed_geometry_oracle(p, obs):
 def describe_real(p):
     d = {k: p[k] for k in ('ny', 'nx', 'x0', 'y0', 'eps', 'pa', 'law', 'scale', 'lin', 'step', 'sma0', 'gsma',
                            'minsma', 'maxsma', 'maxrit', 'integr', 'lin_arg')}
-    d.update(mode='real', fixes=list(p['fixes']), g=list(p['g']))
+    d.update(mode='real', fixes=list(p['fixes']), g=list(p['g']),
+             gfix=list(p['gfix']) if p.get('gfix') else None, gmode=p.get('gmode'))
     return d
 
 
@@ -776,8 +829,11 @@ def run(ctx):
         'fixed parameters: proved of the fitter model for the whole iteration (fixed_params_kept; fixed eps for a '
         'start eps > 0); fix_geometry / non-iterative paths are tested only: on real fits every fix_* request (at '
         'the truth or deliberately away from it; outward pass unbounded / bounded / ending non-iteratively beyond '
-        'the frame or beyond maxrit) is compared exactly with every returned isophote of both passes, and every '
-        'fitter call and returned isophote must carry the requested geometry.fix flags (scripted runs too)',
+        'the frame or beyond maxrit; requested through the fit_image keywords, the EllipseGeometry constructor, the '
+        'geometry.fix attribute, both agreeing, both disagreeing) is compared exactly with every returned isophote '
+        'of both passes, and every fitter call and returned isophote must carry geometry.fix = effective_fix '
+        '(keywords if any keyword is set - they replace the geometry flags -, else the geometry flags; scripted '
+        'runs too; also evaluated by the Coq model, case CFix)',
         'sma_schedule: partial correctness (returns) and outcome-stream premise invalid => code 3',
         '_fix_last_isophote geometry source (previous isophote outwards, first isophote inwards): tested on real '
         'fits only',
@@ -815,6 +871,11 @@ def run(ctx):
         if hyp:
             for sig, msg in sched_oracle(p, obs):
                 ctx.violation('Ellipse.fit_image:' + sig, msg, describe_sched(p))
+        if p.get('gfix'):
+            ctx.stat('scripted', 'request-channel:geometry-flags' + ('+keywords' if any(p['fixes']) else ''))
+        if obs['fixflags']:
+            terms.append(fix_term(p, obs))
+            meta.append(('fix', p, obs))
         ff = fixflag_oracle(p, obs) if not all(p['fixes']) else []
         if ff:
             ctx.violation('Ellipse.fit_image:fix-flags-lost', f'{len(ff)} fitter calls / isophotes lost the '
@@ -843,7 +904,7 @@ def run(ctx):
         ctx.stat('real', 'outward:' + ('maxrit<maxsma' if p['maxrit'] else 'maxsma=None' if p['maxsma'] is None else
                                        'maxsma-beyond-frame' if p['maxsma'] > 0.6 * min(p['ny'], p['nx']) else
                                        'maxsma-inside-frame'))
-        if any(p['fixes']):
+        if any(eff_fixes(p)):
             ctx.stat('real', 'fixed-value:' + ('truth' if fixed_at_truth(p) else 'away-from-truth'))
         obs = run_real(p)
         ctx.count_case(describe_real(p), True)
@@ -856,7 +917,14 @@ def run(ctx):
         meta.append(('real', p, obs))
         ctx.stat('real', 'law:' + p['law'])
         ctx.stat('real', 'integr:' + p['integr'])
-        ctx.stat('real', 'fix:' + ''.join('CPE'[i] for i in range(3) if p['fixes'][i]) if any(p['fixes']) else 'fix:none')
+        fx = eff_fixes(p)
+        ctx.stat('real', 'fix:' + ''.join('CPE'[i] for i in range(3) if fx[i]) if any(fx) else 'fix:none')
+        g_ = tuple(p.get('gfix') or NOFIX)
+        ctx.stat('real', 'request-channel:' + (
+            'none' if not any(fx) and not any(g_) else
+            'keywords' if not any(g_) else
+            ('geometry-' + str(p.get('gmode'))) if not any(p['fixes']) else
+            'both-agree' if g_ == tuple(p['fixes']) else 'both-disagree(keywords-win)'))
         ctx.stat('real', 'growth:' + ('linear' if p['lin'] else 'geometric'))
         ctx.stat('real', 'result:' + KINDS[obs['kind']])
         for c, v in obs['stream']:
@@ -872,6 +940,9 @@ def run(ctx):
         ctx.stat('real', 'stop-code-5-isophotes', sum(1 for _, c, _ in obs['isos'] if c == 5))
         if fg:
             ctx.violation('correspondence:_fix_last_isophote.geometry', fg[0], describe_real(p), found_input=False)
+        if obs['fixflags']:
+            terms.append(fix_term(p, obs))
+            meta.append(('fix', p, obs))
         ff = fixflag_oracle(p, obs)
         if ff:
             ctx.violation('Ellipse.fit_image:fix-flags-lost', f'{len(ff)} fitter calls / isophotes lost the '
@@ -956,7 +1027,7 @@ def run(ctx):
         return (p['nx'] > p['ny'] and p['x0'] > p['ny']) or (p['ny'] > p['nx'] and p['y0'] > p['nx'])
     elig = [(p, obs) for kind, p, obs in meta
             if kind == 'real' and obs['kind'] == 0 and len(obs['isos']) >= 12 and p['integr'] == 'bilinear'
-            and not any(p['fixes'])]
+            and not any(eff_fixes(p))]
     # galaxies centred beyond the shorter frame dimension first (image axes must not be interchangeable)
     elig = [e for e in elig if beyond(e[0])][:(3 if quick else 10)] + [e for e in elig if not beyond(e[0])][:(3 if quick else 10)]
     for p, obs in elig:
@@ -1030,6 +1101,13 @@ def run(ctx):
             else:
                 ctx.violation('correspondence:C20_Model.fit_image', 'sma schedule / call sequence of fit_image '
                               'differs from the model (property clauses hold on this input)', detail, found_input=False)
+        elif kind == 'fix':
+            desc = describe_real(p) if 'law' in p else describe_sched(p)
+            ff = fixflag_oracle(p, obs)
+            ctx.violation('Ellipse.fit_image:fix-flags-lost' if ff else 'correspondence:C20_Model.effective_fix',
+                          (ff[0] if ff else 'geometry.fix seen by the fitter differs from effective_fix of the model'),
+                          desc if ff else {'case': desc, 'seen': sorted({f for _, _, f in obs['fixflags']}), 'model': model},
+                          found_input=bool(ff))
         elif kind == 'polar':
             sc, vec = obs
             desc = {'mode': 'polar', 'x0': p['x0'], 'y0': p['y0'], 'pa': p['pa'], 'pts': p['pts']}
@@ -1098,7 +1176,7 @@ def replay(obj):
             bad += [str(b) for b in fixed_honoured(p, obs)]
             if fixed_at_truth(p):
                 bad += [str(g) for g in recovery(p, obs)[1]]
-            if len(obs['isos']) >= 12 and p['integr'] == 'bilinear' and not any(p['fixes']):
+            if len(obs['isos']) >= 12 and p['integr'] == 'bilinear' and not any(eff_fixes(p)):
                 res = model_residual(p, obs)
                 if res is not None:
                     rel, coverage = res
